@@ -46,7 +46,7 @@ def route(tp, kind, s):
 
 
 def run(ctx):
-    ctx.level = "exploration"
+    ctx.level = "proof"
     exe = ctx.harness("qv_sim")
     if not exe:
         return
@@ -62,4 +62,12 @@ def run(ctx):
     while len(scenarios) < nscen:
         t = simlib.MESSAGE_SCENARIOS[len(scenarios) % len(simlib.MESSAGE_SCENARIOS)]
         scenarios.append(t(ctx.rng))
-    simlib.explore(ctx, runner, scenarios, nsched, judge, route=route)
+    ok, drv = simlib.proof_layer(ctx)
+    res, meta, failures = simlib.explore(ctx, runner, scenarios, nsched, judge, route=route)
+    if drv:
+        step = max(1, len(res) // ctx.n(90, 1500))
+        sample = [simlib.case_line(scenarios[meta[i][0]]["src"], meta[i][1][0], meta[i][1][1], meta[i][2] if meta[i][2] not in ("fair", "corpus") else "")
+                  for i in range(0, len(meta), step) if meta[i][2] != "corpus"]
+        simlib.correspondence(ctx, exe, drv, sample, lambda s: basic_problems(s))
+    if not ok:
+        simlib.theorem_broken(ctx, sum(len(v) for k, v in failures.items() if k[2] is None))
